@@ -21,7 +21,8 @@ META = {
         "parse_tracts, the config hand-down to subordinate tracts, config "
         "setters covering their attribute tables with defaults assigned "
         "before the config is applied, and dead parser parameters. Not "
-        "decided: that two channels give observably equal results."),
+        "decided: that two channels give observably equal results."
+        ' Also: generic option forwarding (DEADPARAM / FORWARD / SIB-DEFAULTS / delegate names), construct_tracts hands parse_qq to every Tract, parse_tracts forwards its arguments as given (provenance), the reader applies a parsed setting unless it is None (three-valued str_to_value), keyword-wins by constant propagation, MasterConfig is the last fallback.'),
     'families': ['TBL', 'LOCK', 'DEADPARAM', 'SIB', 'FORWARD', 'DEADPARAM', 'SIB-DEFAULTS'],
 }
 
